@@ -627,19 +627,32 @@ fn gen_quant_group(rng: &mut Rng, g: &QGen, named: &[&Node]) -> Option<String> {
             s.push_str(" .");
         }
     }
+    if rng.chance(1, 6) {
+        // an anchor before the (plain or optional-free) group: goes to its first element only
+        s.push_str(" .");
+    }
     s.push_str(" (");
+    // the elements are adjacent children, or (1 in 3 steps) leave one child out in between
+    let mut at = start;
+    let mut last = start;
     for i in 0..len {
         if i > 0 {
+            at += 1;
+            if at + 1 < kids.len() && at + (len - i) < kids.len() && rng.chance(1, 3) {
+                at += 1;
+            }
             s.push(' ');
-            if rng.chance(1, 4) {
+            if rng.chance(1, 3) {
                 s.push_str(". ");
             }
         }
-        s.push_str(&simple(&kids[start + i]));
+        last = at;
+        s.push_str(&simple(&kids[at]));
         if rng.chance(1, 2) {
             s.push_str(&g.capture(rng));
         }
     }
+    let len = last + 1 - start;
     s.push(')');
     let q = *rng.pick(&["", "?", "?", "*", "+"]);
     s.push_str(q);
